@@ -433,6 +433,9 @@ class Interp:
         self.ext = ext
         self.options = options or {}
         self.depth = 0
+        from . import values as _values
+
+        _values.CURRENT_CTX[0] = ctx
         self.called = set()  # (relpath, qualname) of abTEM functions entered (inlined)
         self.used_contracts = set()
 
@@ -784,7 +787,17 @@ class Interp:
         raise Unsupported("with statement")
 
     def st_Delete(self, st, frame):
-        raise Unsupported("del statement")
+        for t in st.targets:
+            if isinstance(t, ast.Subscript):
+                obj = self.eval(t.value, frame)
+                idx = self.eval_index(t.slice, frame)
+                if isinstance(obj, (list, dict)) and concrete(idx) and not isinstance(idx, SliceVal):
+                    del obj[idx]
+                    continue
+            elif isinstance(t, ast.Name) and t.id in frame.vars:
+                del frame.vars[t.id]
+                continue
+            raise Unsupported("del statement of this form")
 
     def st_Global(self, st, frame):
         raise Unsupported("global statement")
@@ -865,6 +878,16 @@ class Interp:
         if name in module.imports:
             imp = module.imports[name]
             if imp[0] == "module":
+                try:
+                    importlib.import_module(imp[1])
+                except Exception:  # noqa: BLE001
+                    # optional dependency (`try: import cupy as cp / except: cp = None`): use the live module's value
+                    try:
+                        live = getattr(importlib.import_module(module.dotted), name)
+                        if live is None:
+                            return None
+                    except Exception:  # noqa: BLE001
+                        pass
                 return ModuleRef(imp[1])
             return self.resolve_from_import(imp[1], imp[2], module)
         if name in module.globals_ast:
@@ -898,11 +921,15 @@ class Interp:
                     return m.classes[name]
                 if name in m.globals_ast:
                     return self.live_global(m, name)
+                sub = extract.module_for_dotted(mod + "." + name)
+                if sub is not None:
+                    return ModuleRef(mod + "." + name)
                 if name in m.imports:
                     imp = m.imports[name]
                     if imp[0] == "module":
                         return ModuleRef(imp[1])
-                    return self.resolve_from_import(imp[1], imp[2], m)
+                    if (imp[1], imp[2]) != (mod, name):
+                        return self.resolve_from_import(imp[1], imp[2], m)
             sub = extract.module_for_dotted(mod + "." + name)
             if sub is not None:
                 return ModuleRef(mod + "." + name)
@@ -1014,6 +1041,10 @@ class Interp:
             if name == "__name__":
                 return obj.name
             raise PyRaise("AttributeError", f"{obj.name}.{name}")
+        if isinstance(obj, self.ext.PRow):
+            if name == "shape":
+                return (Sym(z3.Int("nrows"), "int"),) * obj.lead + (len(obj.values),)
+            raise Unsupported(f"attribute {name} of a row-array")
         if isinstance(obj, Opaque):
             return self.ext.opaque_attr(self, obj, name)
         if isinstance(obj, SymC):
@@ -1250,6 +1281,8 @@ class Interp:
     def get_item(self, obj, idx):
         if isinstance(obj, TypeRef):
             return obj
+        if isinstance(obj, self.ext.PRow):
+            return obj.getitem(idx)
         if isinstance(obj, self.ext.Arr):
             r = self.get_item(obj.items, idx)
             return self.ext.Arr(r) if isinstance(r, tuple) else r
